@@ -217,6 +217,9 @@ pub enum AcceptPlan {
 	All,
 	Fixed(usize),
 	Cycle(Vec<usize>),
+	/// (vectored sinks) accept exactly the first `n` non-empty slices of each call, whole: every short write ends
+	/// on a slice boundary
+	WholeSlices(usize),
 }
 impl AcceptPlan {
 	pub fn label(&self) -> String {
@@ -224,6 +227,7 @@ impl AcceptPlan {
 			AcceptPlan::All => "all".into(),
 			AcceptPlan::Fixed(k) => format!("fixed({k})"),
 			AcceptPlan::Cycle(v) => format!("cycle{v:?}"),
+			AcceptPlan::WholeSlices(n) => format!("whole-slices({n})"),
 		}
 	}
 }
@@ -352,7 +356,7 @@ impl SimSink {
 impl SinkState {
 	fn quota(&mut self) -> usize {
 		match &self.plan {
-			AcceptPlan::All => usize::MAX,
+			AcceptPlan::All | AcceptPlan::WholeSlices(_) => usize::MAX,
 			AcceptPlan::Fixed(k) => (*k).max(1),
 			AcceptPlan::Cycle(v) => {
 				if v.is_empty() {
@@ -423,7 +427,10 @@ impl SinkState {
 			}
 		}
 		let total: usize = bufs.iter().map(|b| b.len()).sum();
-		let quota = self.quota();
+		let quota = match &self.plan {
+			AcceptPlan::WholeSlices(n) => bufs.iter().filter(|b| !b.is_empty()).take((*n).max(1)).map(|b| b.len()).sum::<usize>().max(1),
+			_ => self.quota(),
+		};
 		let n = quota.min(total);
 		let mut left = n;
 		let mut slices_touched = 0;
